@@ -200,7 +200,7 @@ def mon_c12(rec, F, weights, params, x0, y0, filter_policy):
 
 
 # ---------------------------------------------------------------- C15
-def mon_c15(rec, F, weights, params, control):
+def mon_c15(rec, F, weights, params, control, fixed_check=False):
     out = []
     tr = rec.trials
     T = None
@@ -231,6 +231,25 @@ def mon_c15(rec, F, weights, params, control):
             z = t.it_out
             if (z.x < P.var_lb).any() or (z.x > P.var_ub).any():
                 add(V("C15|accepted_out_of_box", f"accepted point {z.x.tolist()} leaves the box"))
+            if control == "Fixed" and fixed_check and t.it_out is not t.it_in:
+                if T is None:
+                    T = reftrans(F, weights)
+                R0 = O.RefPoint(T, t.it_in.x, t.it_in.y)
+                p0 = O.implicit_p(T, (t.it_in.x, t.it_in.y), R0, t.rho, t.dt)
+                margin = np.minimum(np.abs(p0 - (T.var_lb - 1e-8)), np.abs(p0 - (T.var_ub + 1e-8)))
+                if (margin > 1e-9 * max(1.0, float(np.max(np.abs(p0))))).all():
+                    A0 = O.implicit_active(T, p0)
+                    Jm = O.implicit_jac(T, R0, t.rho, t.dt, A0)
+                    cond = np.linalg.cond(Jm)
+                    if np.isfinite(cond) and cond < 1e6:
+                        with np.errstate(all="ignore"):
+                            s0 = np.linalg.solve(Jm, O.implicit_value(T, (t.it_in.x, t.it_in.y), R0, t.rho, t.dt, A0))
+                        xn = np.clip(t.it_in.x - s0[: T.n], T.var_lb, T.var_ub)
+                        yn = t.it_in.y - s0[T.n:]
+                        err = max(float(np.max(np.abs(z.x - xn))), float(np.max(np.abs(z.y - yn), initial=0.0)))
+                        if err > 1e-9 * cond * max(1.0, float(np.max(np.abs(s0)))):
+                            add(V("C15|fixed_step_not_for_this_dt", f"trial {k}: with fixed control the step is not the Newton step of the implicit-Euler "
+                                  f"equation for the step size dt={t.dt!r} the loop passed (difference {err:.3e})"))
             if control == "Exact" and t.it_out is not t.it_in:
                 if T is None:
                     T = reftrans(F, weights)
